@@ -319,6 +319,8 @@ def r2(F, R):
         if not muts:
             R.bad("C08-R2", b.path + ":mutators", b.path, "adapt() never passes the transformation on (anchor)")
         from . import rel as Rl
+        count_sw = None
+        okk_sw = None
         for i, (bb, t) in enumerate(muts):
             n += 1
             rels = Rl.edge_relations(b, bb)
@@ -331,6 +333,9 @@ def r2(F, R):
                         c = int(y[2])
                         if (op == "Ge" and c >= 3) or (op == "Gt" and c >= 2):
                             okk = True
+                            okk_sw = _sw
+            if okk and count_sw is None:
+                count_sw = okk_sw
             key = "%s:%s#%d" % (b.path, t["callee"]["name"], i)
             site = "%s @%s" % (b.path, loc(t["span"]))
             if okk:
@@ -338,7 +343,23 @@ def r2(F, R):
             else:
                 R.bad("C08-R2", key, site, "%s is not guarded by current_count() >= 3 (guards: %s): a variance from fewer than three draws can be written" % (
                     t["callee"]["name"], [(o, vt_str(l), vt_str(r) if r else None) for (o, l, r, _s) in rels]))
-    R.floor("C08-R2", 3)
+        # ... and with three draws or more the update happens: the only way to the return that passes no mutator is the too-few-draws edge
+        if muts and count_sw is not None:
+            mb = {bb for bb, _t in muts}
+            succ = b.succ_map()[count_sw]
+            few = [x for x in succ if not (mb & (b.reach_from(x) | {x}))]
+            rets = {x for x, blk in enumerate(b.blocks) if blk["term"]["k"] == "return"}
+            key = b.path + ":update-when-due"
+            site = "%s @%s" % (b.path, b.loc())
+            n += 1
+            if len(few) != 1:
+                R.bad("C08-R2", key, site, "cannot identify the too-few-draws edge of the count test (successors %s)" % succ)
+            elif rets & b.reach_from(0, avoid=sorted(mb | set(few))):
+                R.bad("C08-R2", key, site, "adapt() can return without updating the transformation although the foreground estimator holds three or more draws "
+                      "(a path to the return avoids every mutator and is not the `current_count() < 3` edge): an update that is due is skipped")
+            else:
+                R.ok("C08-R2", key, site, "every path to the return is the too-few-draws edge or passes a mutator")
+    R.floor("C08-R2", 5)
 
 
 def r4(F, R):
@@ -742,6 +763,34 @@ def paired_estimators(F, R, rid="C08-R14"):
                       "the same number of samples" % (d, cnt[d], g, cnt[g]))
     R.floor(rid, 6)
 
+
+def draw_registered(F, R, rid="C08-R16"):
+    """Every draw reaches the adaptation collector (shared with C09)."""
+    R.rule(rid, "every transition hands its end state to the adaptation collector: in nuts::draw and MclmcChain::mclmc_kernel a Collector::register_draw call lies on "
+                "every path to `Ok(..)` - also for a diverging trajectory (the collector decides what to do with it). The chains replace the collector after each "
+                "draw by a fresh one holding zero vectors, so a draw that is not registered feeds the estimators the pair (0, 0) instead of (x, grad logp(x))")
+    n = 0
+    for b in sorted(F.bodies.values(), key=lambda x: x.path):
+        if b.kind == "closure" or not (strip_generics(b.path).endswith("nuts::draw") or b.fn_name == "mclmc_kernel"):
+            continue
+        regs = [bb for bb, t in b.calls() if t["callee"].get("name") == "register_draw"]
+        oks = [bi for bi, blk in enumerate(b.blocks) if not blk["cleanup"] and any(
+            st["k"] == "assign" and st["pl"]["l"] == 0 and not st["pl"]["p"] and st["rv"]["k"] == "agg" and st["rv"].get("variant") == "Ok" for st in blk["stmts"])]
+        key = b.path + ":register_draw"
+        site = "%s @%s" % (b.path, b.loc())
+        n += 1
+        if not regs or not oks:
+            R.bad(rid, key, site, "expected register_draw calls and Ok sites, found %d / %d" % (len(regs), len(oks)))
+            continue
+        reach = b.reach_from(0, avoid=regs)
+        miss = [o for o in oks if o in reach]
+        if miss:
+            sp = [st["span"] for st in b.blocks[miss[0]]["stmts"] if st.get("span")]
+            R.bad(rid, key, "%s @%s" % (b.path, loc(sp[-1])) if sp else site, "an `Ok(..)` is reachable without register_draw: that draw never reaches the adaptation collector")
+        else:
+            R.ok(rid, key, site, "%d register_draw call(s) cover all %d Ok site(s)" % (len(regs), len(oks)))
+    R.floor(rid, 2)
+
 def run(F, R, config=None):
     r1_r3(F, R)
     r7(F, R)
@@ -756,6 +805,7 @@ def run(F, R, config=None):
     r12(F, R)
     r13(F, R)
     paired_estimators(F, R)
+    draw_registered(F, R)
     from . import c02
     K.borrow_rule(R, lambda sub: c02.r10(F, sub), "C08-R10", "no logarithm of a product reduction in the transformation / math code: finite positive scales and "
                   "eigenvalues give a finite log-determinant (C02-R10 analysis)", only_rules={"C02-R10"})
